@@ -7,7 +7,7 @@ import logging
 from core import Case
 
 PROP = 'C16'
-COQ_TARGETS = ['theories/CovQueue.vo']
+COQ_TARGETS = ['theories/CovQueue.vo', 'theories/CovRound.vo']
 COQ_IMPORTS = 'From Bac Require Import Base Cov.'
 RULE = ('cases: seeded timelines of 6..28 events over a device with 6 objects (analogValue, analogInput, binaryValue, '
         'multiStateValue, pulseConverter [covPeriod 0 or 1..20 s], calendar = no COV support; + an unknown object id) and 3 subscriber '
@@ -24,7 +24,7 @@ RULE = ('cases: seeded timelines of 6..28 events over a device with 6 objects (a
         'notification; distinct by (event list, silent subscribers).  Crowd family (60 cases in the tie, 550 in the direct check): 9..16 '
         'concurrent subscriptions with distinct lifetimes laid out late/early by heap subtree, descending or interleaved, all made in '
         'one instant; 1..4 cancellations / renewals of entries that are not the earliest; then quiet clock jumps landing just behind '
-        'successive expiries (a staircase with one active-list read per step, or one long jump followed by changes on every object).')
+        'successive expiries (a staircase with one active-list read per step, or one long jump followed by changes on every object).  Rounds family (120 cases in the tie, 500 in the direct check): one object with 1..3 subscriptions, 3..7 rounds of (single write | burst within one instant) + drain aimed at the exactly tracked reference +-(increment-1 | increment | increment+1), bursts crossing the increment first and ending on another value; between rounds mode-flipping renewals and lapses (all subscriptions of the object cancelled or expired, then the same key in the other mode or a new key subscribes) - the setting of the CovRound.v theorems.')
 TRUSTED = ['model coq/theories/Cov.v written by hand after service/cov.py (Subscription, COVDetection, COVIncrementCriteria, '
            'PulseConverterCriteria, ActiveCOVSubscriptions, ChangeOfValueServices.do_SubscribeCOVRequest / cancel_subscription), '
            'service/detect.py (DetectionMonitor.property_change, _execute) and object.py Property.WriteProperty monitors; tie = correspondence',
@@ -798,6 +798,111 @@ def gen_crowd_stairs(rng):
     return cfg, events
 
 
+def gen_rounds(rng):
+    """whole notification rounds between quiescent instants on ONE object with 1..3 subscriptions (the setting of
+    CovRound.v): each round is a single write or a burst within one instant followed by a drain.  Analog / pulse-converter
+    writes are aimed at the TRUE reference (tracked exactly: the value of the last notification) at distance
+    increment-1 / increment / increment+1 in both directions; bursts cross the increment with their first write and end
+    on another value (so that the reported value, not the triggering one, must become the reference: the next rounds
+    are aimed at both).  Between rounds, with some probability: a renewal that flips the notification mode (and
+    changes the lifetime), or a LAPSE - the object loses all of its subscriptions (cancelled one by one, or the
+    clock is moved past the last expiry) and is subscribed again, by the same key in the other mode or by a new one -
+    after which the rounds go on."""
+    cfg = gen_cfg(rng, period=0)
+    analog = rng.random() < 0.7
+    oi = rng.choice([0, 1, 4]) if analog else rng.choice([2, 3, 6])
+    t = cfg[oi][0]
+    oid = oid_of(t, cfg[oi][1])
+    inc = cfg[oi][5]
+    cur, flags = cfg[oi][3], cfg[oi][4]
+    events = []
+    subs = {}                    # key -> [conf, expiry tick or None]
+    now = 0
+
+    def sub(key, conf, life):
+        events.append(('S', key[0], key[1], oid, conf, life) + (('P',) if rng.random() < 0.15 else ()))
+        subs[key] = [1 if conf else 0, (now + life * TICKS) if life else None]
+
+    def fresh_key():
+        free = [(c, p) for c in (2, 3, 4) for p in (1, 2) if (c, p) not in subs]
+        return rng.choice(free)
+
+    def some_life(finite=False):
+        return rng.choice([30, 60, 120] if finite else [None, 0, 30, 60, 120])
+
+    for _ in range(rng.choice([1, 2, 2, 3])):
+        sub(fresh_key(), rng.choice([0, 1]), some_life())
+    ref = cur
+    for _ in range(rng.randrange(3, 8)):
+        q = rng.random()
+        if q < 0.14 and subs:                                   # renewal flipping the mode
+            key = rng.choice(sorted(subs))
+            sub(key, 1 - subs[key][0], some_life())
+            ref = cur
+        elif q < 0.34 and subs:                                 # lapse: every subscription of the object ends
+            old = dict(subs)
+            finite = all(v[1] is not None for v in subs.values())
+            if finite and rng.random() < 0.5:
+                dt = max(v[1] for v in subs.values()) - now + rng.choice([0, 1, 8])
+                events.append(('A', max(1, dt)))
+                now += max(1, dt)
+            else:
+                for key in sorted(subs, key=lambda k: rng.random()):
+                    events.append(('X', key[0], key[1], oid))
+            subs.clear()
+            if rng.random() < 0.3:                               # a change while nobody listens
+                cur = cur + rng.choice([1, inc, 2 * inc + 1]) if analog else cur
+                if analog:
+                    events.append(('W', oi, 'pv', cur))
+                    events.append(('D',))
+            for _ in range(rng.choice([1, 1, 2])):
+                if old and rng.random() < 0.6:
+                    key = rng.choice(sorted(old))
+                    conf = 1 - old.pop(key)[0]
+                else:
+                    key, conf = fresh_key(), rng.choice([0, 1])
+                if key not in subs:
+                    sub(key, conf, some_life())
+            ref = cur
+        # one round
+        if analog:
+            trig = False
+            if rng.random() < 0.4:                               # burst: cross first, end elsewhere
+                sgn = rng.choice([1, -1])
+                vs = [ref + sgn * (inc + rng.choice([0, 1, 3]))]
+                for _ in range(rng.choice([1, 1, 2, 3])):
+                    vs.append(rng.choice([ref, ref + sgn * max(1, inc - 1), ref - sgn * (inc + 1), vs[0] + sgn * inc,
+                                          vs[0] - sgn * max(1, inc // 2), ref + rng.randrange(-60, 61)]))
+            else:
+                d = rng.choice([inc - 1, inc, inc + 1, -(inc - 1), -inc, -(inc + 1), 0, 1, -1, 2 * inc + 3, rng.randrange(-60, 61)])
+                vs = [ref + d]
+                if rng.random() < 0.15:
+                    vs.append(ref)                               # sub-increment excursion and back / return to the reference
+            for v in vs:
+                if not trig:
+                    trig = abs(v - ref) >= inc
+                cur = v
+                events.append(('W', oi, 'pv', v))
+            if rng.random() < 0.15:
+                flags = rng.choice([0, 4, 8])
+                events.append(('W', oi, 'fl', flags))
+                trig = True                                      # close enough for aiming: the oracle does the judging
+            events.append(('D',))
+            if trig:
+                ref = cur
+        else:
+            for _ in range(rng.choice([1, 1, 2, 3])):
+                if rng.random() < 0.75:
+                    cur = rng.randrange(2) if t == 'binaryValue' else (rng.randrange(4) if t == 'loadControl' else rng.randrange(1, 6))
+                    events.append(('W', oi, 'pv', cur))
+                else:
+                    flags = rng.choice([0, 2, 4, 8, flags])
+                    events.append(('W', oi, 'fl', flags))
+            events.append(('D',))
+    events.append(('R', rng.choice([2, 3, 4])))
+    return cfg, events
+
+
 def gen_any(rng, nmin=6, nmax=28):
     """(cfg, events, silent, kind): the mix of timeline families used by the correspondence and the direct check"""
     r = rng.random()
@@ -831,6 +936,9 @@ def cases(rng, tier):
     for k in range(240 if tier == 'thorough' else 60):
         cfg, ev = gen_crowd_stairs(rng) if k % 3 else gen_crowd(rng)
         out.append(mk_case(cfg, ev, 'crowd'))
+    for k in range(400 if tier == 'thorough' else 120):
+        cfg, ev = gen_rounds(rng)
+        out.append(mk_case(cfg, ev, 'rounds'))
     return out
 
 
@@ -1220,6 +1328,10 @@ def direct(rng, tier, focus=()):
     for k in range(900 if tier == 'thorough' else 150):
         cfg, ev = gen_crowd(rng)
         one(cfg, ev, 'crowd-jump')
+    # whole rounds on one object: increment boundary against the true reference, bursts, mode-flipping renewals, lapses
+    for k in range(3000 if tier == 'thorough' else 500):
+        cfg, ev = gen_rounds(rng)
+        one(cfg, ev, 'rounds')
     return failures, {'evaluations': n, 'distinct_nontrivial': nontriv, 'exhaustive': False, 'timelines': hist, 'samples': samples}
 
 
